@@ -40,11 +40,11 @@ MIN_COUNTERS = {
     'quick': {'wakes_checked': 1500, 'order_pairs_checked': 200,
               'park_points_reached': 25, 'raising_tasks': 20,
               'clear_cases': 6, 'lock_owned_checks': 1500, 'move_cases': 6,
-              'moved_while_pending': 20},
+              'moved_while_pending': 20, 'tempo_changes_from_plain_thread': 1000},
     'thorough': {'wakes_checked': 50000, 'order_pairs_checked': 5000,
                  'park_points_reached': 150, 'raising_tasks': 500,
                  'clear_cases': 40, 'lock_owned_checks': 50000, 'move_cases': 40,
-                 'moved_while_pending': 500},
+                 'moved_while_pending': 500, 'tempo_changes_from_plain_thread': 20000},
 }
 
 LATE_STRESS = 6.0
@@ -55,7 +55,8 @@ def plan(tier, seed):
     shards = []
     if tier == 'quick':
         cfgs = [
-            dict(secs=7, nthreads=6, ntempo=2, p_yield=0.02, burners=2, max_tasks=1600),
+            dict(secs=7, nthreads=6, ntempo=2, p_yield=0.02, burners=2, max_tasks=1600,
+                 unlocked_tempo=True),
             dict(secs=7, nthreads=10, ntempo=3, p_yield=0.0, burners=0, max_tasks=1600),
         ]
         for i, c in enumerate(cfgs):
@@ -72,7 +73,8 @@ def plan(tier, seed):
                 name=f'stress{i}', mode='rt', kind='stress', secs=50,
                 nthreads=[4, 8, 12, 16][i % 4], ntempo=[1, 3, 6][i % 3],
                 p_yield=[0.0, 0.01, 0.05, 0.15][(i // 2) % 4],
-                burners=[0, 2, 8][i % 3], max_tasks=40000, hard_timeout=300))
+                burners=[0, 2, 8][i % 3], max_tasks=40000, unlocked_tempo=i % 2 == 0,
+                hard_timeout=300))
         for ck in ('SystemClock', 'AppClock', 'TempoClock'):
             for part in range(2):
                 shards.append(dict(name=f'park-{ck}-{part}', mode='rt', kind='park',
@@ -673,9 +675,13 @@ def run_stress(spec, acc):
                 if op < 0.04 and tempos:
                     tc = rng.choice(tempos)
                     val = rng.choice([0.5, 1, 2, 3, 4, 8, 16])
-                    with main._main_lock:
-                        tc.tempo = val
-                    h.log.add('tempo', h.cname(tc), val, 'thread-locked')
+                    if cfg.get('unlocked_tempo') and rng.random() < 0.5:
+                        tc.tempo = val          # plain REPL-style use
+                        h.log.add('tempo', h.cname(tc), val, 'thread-unlocked')
+                    else:
+                        with main._main_lock:
+                            tc.tempo = val
+                        h.log.add('tempo', h.cname(tc), val, 'thread-locked')
                 elif op < 0.07:
                     me.send_msg('/vfk', total[0])
                 elif op < 0.12:
@@ -1115,6 +1121,9 @@ def run_clear(spec, acc):
             acc.case(h64((ck, n, rnd)), nontrivial=True)
             if ck != 'TempoClock-stop':
                 move_case(h, acc, clock, ck, rng, rnd)
+            else:
+                vid[0] += 1
+                tempo_hammer_case(h, acc, rng, vid[0])
             if ck == 'TempoClock':
                 clock.stop()
     h.report_lockmon(acc)
@@ -1145,6 +1154,49 @@ def move_case(h, acc, clock, ck, rng, rnd):
     analyze(h, acc, 0.6, h.main.elapsed_time(), starved=starved, label='move')
     acc.count('move_cases')
     acc.case(h64(('move', ck, rnd, earlier)), nontrivial=True)
+
+
+def tempo_hammer_case(h, acc, rng, vid):
+    """A plain thread changes the tempo of a clock (REPL style, no lock of its
+    own) as fast as it can while many tasks are due on that clock: every task
+    must still find, when it is awakened, that the clock has reached its beat."""
+    h.recs.clear()
+    h.log.events.clear()
+    h.watch.reset()
+    clock = h.new_tempo(4.0, vid)
+    stop = [False]
+    changes = [0]
+
+    def hammer():
+        r = random.Random(vid)
+        while not stop[0]:
+            try:
+                clock.tempo = r.choice([2.0, 3.0, 4.0, 6.0, 8.0])
+                changes[0] += 1
+            except Exception as e:
+                h.errors.append(('tempo-hammer', repr(e)))
+                return
+            if changes[0] % 20 == 0:
+                time.sleep(0)
+    b0 = clock.elapsed_beats()
+    for k in range(150):
+        h.do_sched(clock, 'abs', b0 + 0.2 + k * 0.03, [{'ret': 0.01}, {'ret': None}],
+                   'tk', ('thread', 'th'), ahead=0.2 + k * 0.03)
+    th = threading.Thread(target=hammer, daemon=True)
+    th.start()
+    time.sleep(1.6)
+    stop[0] = True
+    th.join(2)
+    time.sleep(3.0)     # slowest tempo 2: 4.7 beats / 2 = 2.4 s in total
+    starved = h.watch.max_oversleep > 0.5 or h.watch.max_step > 0.05
+    analyze(h, acc, LATE_PARK, h.main.elapsed_time(), starved=starved, label='tempo-hammer')
+    acc.count('tempo_hammer_cases')
+    acc.count('tempo_changes_from_plain_thread', changes[0])
+    acc.case(h64(('tempo-hammer', vid)), nontrivial=changes[0] > 100)
+    for e in h.errors[:2]:
+        acc.violation('C08/harness-call-raised/' + e[0], {'error': e[1]})
+    del h.errors[:]
+    clock.stop()
 
 
 def run_shard(spec, acc):
